@@ -408,6 +408,7 @@ fn hook_hexlen(l: &[Limb]) -> String {
     format!("{}:{}", l.len(), words_hex(&l.iter().map(|x| x.0).collect::<Vec<_>>()))
 }
 
+#[cfg(crypto_bigint_verif)]
 fn hook_ops(op: &str, a: &[&str]) -> Option<String> {
     use crypto_bigint::verif_hooks as h;
     const MAXL: usize = 600;
@@ -493,4 +494,12 @@ pub fn dispatch(op: &str, a: &[&str]) -> Option<String> {
         }
         _ => Some(BAD.into()),
     }
+}
+
+// ---- the same entry points when the crate is built WITHOUT `--cfg crypto_bigint_verif` (fallback build of the runner when the
+// hook forwarders of /repo no longer compile, e.g. after a refactor of an internal signature): hook operations answer
+// `hook-unavailable` and are skipped by the runner; the public operations still run.
+#[cfg(not(crypto_bigint_verif))]
+fn hook_ops(_op: &str, _a: &[&str]) -> Option<String> {
+    Some(crate::util::HOOK_UNAVAILABLE.to_string())
 }
